@@ -23,10 +23,10 @@ import (
 type logCasePlan struct {
 	pre      string // what the file holds before the first run
 	runs     int
-	byEnv    []bool   // the run is told the file by CURLREVSHELL_LOG instead of -log
-	gens     []int    // shell generations of the run
-	cut      []string // "", or how the harness cuts the file during the run
-	addAfter []bool   // somebody else appends to the file after the run
+	naming   []logNaming // how the run is told the file (-log, CURLREVSHELL_LOG, both; see naming.go)
+	gens     []int       // shell generations of the run
+	cut      []string    // "", or how the harness cuts the file during the run
+	addAfter []bool      // somebody else appends to the file after the run
 }
 
 var (
@@ -40,7 +40,7 @@ func planLogCase(idx int, thorough bool) logCasePlan {
 		p.runs = 4
 	}
 	for j := 0; j < p.runs; j++ {
-		p.byEnv = append(p.byEnv, (idx/2+j)%2 == 1)
+		p.naming = append(p.naming, planNaming(idx, j))
 		p.gens = append(p.gens, (idx+2*j+1)%3)
 		cut := ""
 		if (idx+j)%2 == 1 {
@@ -153,14 +153,7 @@ func logFileCase(r *mon.Run, bin string, idx int) {
 		return nv == 0
 	}
 	for j := 0; j < plan.runs; j++ {
-		args := []string{"-listen-address", "127.0.0.1:0", "-tls-certificate-cache", ""}
-		var env []string
-		if plan.byEnv[j] {
-			env = []string{"CURLREVSHELL_LOG=" + logf}
-		} else {
-			args = append(args, "-log", logf)
-		}
-		s, err := crs.StartEnv(bin, home, env, args...)
+		s, decoy, err := startNamed(bin, home, logf, plan.naming[j], fmt.Sprint(j))
 		if err != nil {
 			r.Inconclusive("logfile: binary did not start: " + err.Error())
 			return
@@ -172,7 +165,10 @@ func logFileCase(r *mon.Run, bin string, idx int) {
 				r.Count("logfile_runs_on_torn_file", 1)
 			}
 		}
-		note("run %d (%d generations, file named by %s, cut %q)", j, plan.gens[j], map[bool]string{true: "environment", false: "-log"}[plan.byEnv[j]], plan.cut[j])
+		note("run %d (%d generations, file named by %s, cut %q)", j, plan.gens[j], plan.naming[j], plan.cut[j])
+		if decoy != "" {
+			note("run %d: CURLREVSHELL_LOG names another file, %s", j, filepath.Base(decoy))
+		}
 		t := &truth{}
 		cutAt := -1
 		if plan.cut[j] != "" {
@@ -198,6 +194,10 @@ func logFileCase(r *mon.Run, bin string, idx int) {
 					break
 				}
 				if time.Now().After(deadline) {
+					if _, err := os.Stat(logf); err != nil {
+						viol("log-file-missing", fmt.Sprintf("run %d (log file named by %s): the program is up and every stream so far has ended, but: %v", j, plan.naming[j], err))
+						return false
+					}
 					// let the strict comparison say what is wrong, if anything is
 					if settle(content, t, fmt.Sprintf("run %d before the file is cut", j)) {
 						r.Inconclusive(fmt.Sprintf("logfile %d: the log file did not come to rest before the cut", idx))
@@ -261,7 +261,7 @@ func logFileCase(r *mon.Run, bin string, idx int) {
 		}
 		content, err := os.ReadFile(logf)
 		if err != nil {
-			viol("log-file-missing", err.Error())
+			viol("log-file-missing", fmt.Sprintf("after run %d (log file named by %s): %v", j, plan.naming[j], err))
 			return
 		}
 		if !settle(content, t, fmt.Sprintf("after run %d", j)) {
@@ -271,9 +271,7 @@ func logFileCase(r *mon.Run, bin string, idx int) {
 		if j > 0 {
 			r.Count("logfile_reruns", 1)
 		}
-		if plan.byEnv[j] {
-			r.Count("logfile_runs_named_by_environment", 1)
-		}
+		plan.naming[j].count(r, "logfile")
 		base = content
 		if plan.addAfter[j] {
 			add := foreign(rng, 1+rng.IntN(200), rng.IntN(2) == 0)
@@ -313,9 +311,11 @@ func logFileRuns(r *mon.Run) {
 		}
 	})
 	// what the plans promise, counted from the plans themselves
-	var runs, reruns, cuts, midline, copytr, adds, env int64
+	var runs, reruns, cuts, midline, copytr, adds int64
+	var namings []logNaming
 	for i := 0; i < n; i++ {
 		p := planLogCase(i, r.Thorough())
+		namings = append(namings, p.naming...)
 		runs += int64(p.runs)
 		reruns += int64(p.runs - 1)
 		for j := 0; j < p.runs; j++ {
@@ -333,9 +333,6 @@ func logFileRuns(r *mon.Run) {
 			if p.addAfter[j] {
 				adds++
 			}
-			if p.byEnv[j] {
-				env++
-			}
 		}
 	}
 	r.Floor("logfile_cases", int64(n))
@@ -347,7 +344,7 @@ func logFileRuns(r *mon.Run) {
 	r.Floor("logfile_cuts_mid_line", midline)
 	r.Floor("logfile_copy_truncates", copytr)
 	r.Floor("logfile_foreign_appends", adds)
-	r.Floor("logfile_runs_named_by_environment", env)
 	r.Floor("logfile_bytes_preserved", int64(n)*1000)
 	r.Floor("logfile_connections", int64(n))
+	namingFloors(r, "logfile", namings, true)
 }
